@@ -143,6 +143,8 @@ fn run_f64(k: Kind, xs: &[f64], out: &mut TrialOut) {
     let eps = f64::EPSILON;
     let mut big = 0f64;
     for t in 0..xs.len() {
+        // the exact quantities of one step are not needed after it (the view runs at f64)
+        let _step = crate::xq::Scope::new();
         big = big.max(xs[t].abs());
         let Ok(got) = guarded(|| {
             v.update(xs[t]);
